@@ -250,39 +250,22 @@ type c05Run struct {
 	rec       *ev.Recorder
 	checks    int
 	absentRef bool
-	knownHit  bool
-	truncated bool
-	// cutAtStalePending: the C03 finding "stale pending policy" is present in the tree under
-	// test (probed once per test function) or registered as known: cases are cut short at its
-	// precondition because from there on the outputs of A and B depend on map iteration order.
-	cutAtStalePending bool
 }
 
-func c05NewRun(t *rapid.T, rec *ev.Recorder, cut bool) *c05Run {
+func c05NewRun(t *rapid.T, rec *ev.Recorder) *c05Run {
 	h := c03NewHist(t)
 	h.invalidGen = c05InvalidValue
-	return &c05Run{t: t, h: h, a: c03NewGraph(), b: c03NewGraph(), rec: rec, cutAtStalePending: cut}
-}
-
-// c05CutAtStalePending decides once per test function whether cases are cut at the precondition
-// of the C03 finding, and records the decision in the evidence.
-func c05CutAtStalePending(rec *ev.Recorder) bool {
-	_, present := c03ProbeStalePending()
-	rec.Extra("c03_stale_pending_policy_defect_present_in_tree", present)
-	return present || ev.Known(c03SigStalePending)
+	return &c05Run{t: t, h: h, a: c03NewGraph(), b: c03NewGraph(), rec: rec}
 }
 
 func (r *c05Run) batch(n int, weights []string, pInvalid int) {
-	if r.truncated {
-		return
-	}
 	as, bs := r.h.genBatch(n, weights, pInvalid)
 	r.a.send(as)
 	r.b.send(bs)
 }
 
 func (r *c05Run) inSync() {
-	if !r.a.inSync && !r.truncated {
+	if !r.a.inSync {
 		r.a.setInSync()
 		r.b.setInSync()
 		r.h.log = append(r.h.log, "in-sync")
@@ -291,19 +274,6 @@ func (r *c05Run) inSync() {
 }
 
 func (r *c05Run) flushAndCheck() {
-	if r.truncated {
-		return
-	}
-	// The known C03 finding makes the output depend on map iteration order inside the policy
-	// resolver, so A and B may legitimately differ once its precondition occurred.
-	if r.h.stalePendingAtFlush(r.a.inSync) {
-		r.knownHit = true
-		if r.cutAtStalePending {
-			r.rec.Excluded(c03SigStalePending)
-			r.truncated = true
-			return
-		}
-	}
 	r.a.flush()
 	r.b.flush()
 	r.h.log = append(r.h.log, "flush")
@@ -332,9 +302,6 @@ func (r *c05Run) flushAndCheck() {
 func (r *c05Run) finish() {
 	rec := r.rec
 	classes := []string{}
-	if r.knownHit {
-		classes = append(classes, "known:"+c03SigStalePending)
-	}
 	if r.absentRef {
 		classes = append(classes, "referenced-profile-without-valid-rules")
 	}
@@ -378,12 +345,10 @@ func TestVerifC05FailClosedHistories(t *testing.T) {
 		"rapid-generated histories as in C03 (same universe) with profile-rules/profile/policy/endpoint sets replaced by an invalid variant with probability 0.3, run on two graphs (A: as generated, B: invalid replaced by absence) with identical batch/flush/in-sync schedule; compared after every flush. Non-trivial = at a checked flush a local endpoint referenced a profile without valid rules, or an invalid value was delivered for a key holding a valid value. Distinct = op-kind sequence + classes (incl. the invalid variants used)",
 		"invalid variants are values rejected by calc.ValidationFilter on the unchanged tree (v1 backend validator, v3 validator for Profile resources, filter's own workload endpoint checks); tiers and rule actions have no validation and are not varied",
 		"(iii) 'never more open than absence' is established through equality with the absence run (ii)",
-		"while the C03 finding C03-stale-pending-policy is present in the tree (probed at start) a case is cut short at the first flush where its precondition holds: from there on the resolver's output depends on map iteration order, so A and B could differ for reasons unrelated to validation",
 		"selector semantics trusted from libcalico-go/lib/selector")
 	defer rec.Write()
-	cut := c05CutAtStalePending(rec)
 	rapid.Check(t, func(t *rapid.T) {
-		r := c05NewRun(t, rec, cut)
+		r := c05NewRun(t, rec)
 		nSteps := rapid.IntRange(1, ev.Scale(12, 26)).Draw(t, "numSteps")
 		syncAt := rapid.IntRange(-3, nSteps).Draw(t, "inSyncAfterStep")
 		if syncAt <= 0 {
@@ -423,9 +388,8 @@ func TestVerifC05ReferenceLifecycle(t *testing.T) {
 		"context (local workload+host endpoint referencing prof1/prof2, tiers, a matching policy) then 2-6 transitions of one target key (profile rules, profile resource, policy or endpoint) among valid / invalid variant / deleted, flush and compare after each transition; non-trivial as in the histories unit (true by construction for most cases)",
 		"same assumptions as the histories unit")
 	defer rec.Write()
-	cut := c05CutAtStalePending(rec)
 	rapid.Check(t, func(t *rapid.T) {
-		r := c05NewRun(t, rec, cut)
+		r := c05NewRun(t, rec)
 		if rapid.IntRange(0, 3).Draw(t, "inSyncFirst") > 0 {
 			r.inSync()
 		}
